@@ -93,6 +93,18 @@ class TxIds(Family):
                 raise Viol('%s has_witness()' % what, has, t.has_witness())
             objs.append(t)
         a, b = objs
+
+        def snapcheck(mm, when):
+            # an immutable snapshot taken at this moment reports the identifiers of the fields at this moment - also when
+            # snapshots of the same object (same txid, other witness; or other fields) were taken before
+            sn = CTransaction.from_tx(b)
+            if sn.GetTxid() != W.txid(mm) or sn.GetHash() != W.wtxid(mm) or sn.has_witness() != W.has_witness(mm) or sn.serialize() != W.encode_tx(mm):
+                raise Viol('immutable snapshot (CTransaction.from_tx) of the mutable transaction taken %s does not report the identifiers of its current fields' % when,
+                           (W.txid(mm).hex(), W.wtxid(mm).hex()), (sn.GetTxid().hex(), sn.GetHash().hex()))
+            mu = CMutableTransaction.from_tx(sn)
+            if mu.GetTxid() != W.txid(mm) or mu.GetHash() != W.wtxid(mm):
+                raise Viol('mutable copy of the snapshot taken %s reports other identifiers' % when, None, None)
+        snapcheck(m, 'right after construction')
         if not (a == b and b == a) or (a != b) or (b != a):
             raise Viol('immutable and mutable transactions with equal fields compare unequal', True, False)
         if hash(a) != hash(b) or hash(a) != hash(CTransaction.deserialize(W.encode_tx(m))):
@@ -109,6 +121,7 @@ class TxIds(Family):
                 mf = dict(m, wit=[[] for _ in m['vin'][:-1]] + [[b'filled', b'in']])
                 if b.GetTxid() != txid or b.GetHash() != W.wtxid(mf) or not b.has_witness() or b.serialize() != W.encode_tx(mf):
                     raise Viol('after filling a slot of the default witness list in place the identifiers do not reflect the witness', (txid.hex(), W.wtxid(mf).hex()), (b.GetTxid().hex(), b.GetHash().hex()))
+                snapcheck(mf, 'after filling a witness slot in place')
                 b.wit.vtxinwit[-1] = CTxInWitness()
                 if b.GetHash() != txid or b.has_witness():
                     raise Viol('after emptying the slot again the witness hash is not the txid', txid.hex(), b.GetHash().hex())
@@ -121,6 +134,7 @@ class TxIds(Family):
             m2['wit'] = [list(stack) for _ in m['vin']]
             if b.GetHash() != W.wtxid(m2):
                 raise Viol('witness hash after replacing the witness', W.wtxid(m2), b.GetHash())
+            snapcheck(m2, 'after replacing the witness by %r stacks' % (stack,))
         # altering one witness stack in place, where the witness object of a mutable transaction holds a list
         # (the default one does): the witness hash follows, the txid stays
         if isinstance(getattr(b.wit, 'vtxinwit', None), list) and len(b.wit.vtxinwit) == len(m['vin']):
@@ -133,6 +147,7 @@ class TxIds(Family):
                 m2 = dict(m2, wit=[list(x) for x in m2['wit'][:-1]] + [[b'in', b'place']])
                 if b.GetTxid() != txid or b.GetHash() != W.wtxid(m2) or b.has_witness() is False:
                     raise Viol('after replacing one witness stack in place the identifiers do not reflect the current witness', (txid, W.wtxid(m2)), (b.GetTxid(), b.GetHash()))
+                snapcheck(m2, 'after replacing one witness stack in place')
         # ... and after editing non-witness fields the mutable object reports the identifiers of its *current*
         # field values, identical to a freshly built immutable object with those values (no stale cache)
         m3 = {'version': m['version'], 'locktime': m['locktime'] ^ 1, 'wit': m2['wit'],
